@@ -46,12 +46,20 @@ type rollWorld struct {
 	opt    ccOpt
 }
 
+// rollHookDesc: the hook lists its children highest ordinal first (as a StatefulSet-like hook does on updates)
+var rollHookDesc bool
+
 func rollHook(ck *sim.Kind, cns string, genSel bool) world.HookFunc {
+	desc := rollHookDesc
 	return world.JSON(func(req map[string]interface{}) interface{} {
 		n, _ := kit.Get(req, "parent", "spec", "replicas").(int64)
 		ver, _ := kit.Get(req, "parent", "spec", "template", "ver").(string)
 		var ch kit.L
-		for i := int64(0); i < n; i++ {
+		for j := int64(0); j < n; j++ {
+			i := j
+			if desc {
+				i = n - 1 - j
+			}
 			o := kit.Obj(ck, cns, fmt.Sprintf("w%d", i))
 			kit.Field(o, ver, "spec", "tpl")
 			kit.Field(o, kit.Get(req, "parent", "spec", "common"), "spec", "common")
